@@ -376,6 +376,7 @@ def run_project(args):
     entries = st.get("entries") or (["cli", "lib"] if lib else ["cli"])
     detail = {}
     ok = True
+    corr = True
     out = ""
     code = 0
     with vlib.Sandbox("c15") as sb:
@@ -404,10 +405,23 @@ def run_project(args):
                 # a second run over the same tree takes the cache path (hash comparison instead of generation)
                 code2, out2 = sb.cli(cli, cwd=sb.path("proj"), timeout=60)
                 detail["exit_second_run"] = code2
+                detail["second_run_cache_hit"] = "up to date" in out2
                 if code2 not in (0, 1):
                     code, out = code2, out2
             detail.update({"exit": code, "output": out[-1500:] if code not in (0, 1) else out[-300:]})
             ok = code in (0, 1)
+            if st.get("expect_hash") and not sp:
+                # hash-extreme stream: the state hash the driver computed through the public cache API is the one
+                # the CLI wrote into .typecache (otherwise the case does not exercise the extreme it was searched for)
+                try:
+                    import json
+                    written = json.load(open(sb.path("out/.typecache"))).get("combined_hash")
+                except (OSError, ValueError):
+                    written = None
+                detail["cache_file_combined_hash"] = written
+                detail["expected_combined_hash"] = st["expect_hash"]
+                if detail.get("exit") == 0 or written is not None:
+                    corr = written == st["expect_hash"]
         for entry in ("analyze", "lib", "build"):
             if entry not in entries:
                 continue
@@ -424,6 +438,10 @@ def run_project(args):
                 sb.write("proj/tauri.conf.json", typegen_conf(sb, mode, st, bsrc, "./out-build"))
                 case = {"entry": "build", "dir": sb.path("proj")}
             o = run_oneshot(sb, case, entry)
+            if entry == "build" and st.get("no_force") and o.get("result") == "ok":
+                # the build script run again over the unchanged tree: the second run reads the cache
+                detail["build_first_run"] = o.get("result")
+                o = run_oneshot(sb, case, "build2")
             detail[entry] = o.get("result", o)
             if o.get("result") == "panic" or "crash" in o:
                 ok = False
@@ -438,7 +456,7 @@ def run_project(args):
     case = {"kind": tag, "mode": mode, "files": files}
     if st:
         case["settings"] = st
-    return Outcome(case, True, ok, kf, detail, nontrivial=True)
+    return Outcome(case, corr, ok, kf, detail, nontrivial=True)
 
 
 def canon_tree(snap):
@@ -616,6 +634,91 @@ def project_cases(rep, rng):
     return cases
 
 
+# HASH-VALUE dependent behaviour: project states whose cache hash TEXT is extreme. The hashes are written with
+# format!("{:x}", u64), so a hash with k leading zero nibbles has 16 - k digits; random projects never have more than
+# two or three. The driver searches a counter through the public GenerationCache API (about a million states per
+# second); corpus/C15/hash/extremes.json keeps names found earlier, every one is recomputed on the tree under test
+# (a hashing change moves them) and the search runs again when too few are left.
+HASH_SHAPES = [("command", "none"), ("command", "zod"), ("struct", "none"), ("event", "zod")]
+HASH_MAXLEN = 11          # at least five leading zero nibbles (probability 2^-20 per project state)
+
+
+def hash_table():
+    import json
+    try:
+        return json.load(open(os.path.join(vlib.VERIF, "corpus", "C15", "hash", "extremes.json")))["tables"]
+    except (OSError, ValueError, KeyError):
+        return {}
+
+
+def hash_extremes(rep, want=2, max_tries=None):
+    """[(kind, validation, name, hashes)] with some hash text of at most HASH_MAXLEN digits (verified on this tree, or
+    found now), plus one name per combined-hash length 12..15"""
+    quick = rep is None or rep.tier == "quick"
+    max_tries = max_tries or (8_000_000 if quick else 40_000_000)
+    table = hash_table()
+    res, info = [], {}
+    with vlib.Sandbox("c15h") as sb:
+        cases, lens = [], []
+        for i, (kind, val) in enumerate(HASH_SHAPES):
+            t = table.get("%s/%s" % (kind, val), {})
+            cases.append({"id": i, "dir": sb.path("h%d" % i), "kind": kind, "validation": val, "table": t.get("short", []),
+                          "maxlen": HASH_MAXLEN, "want": want, "max_tries": max_tries, "threads": 2})
+            lens.append({"id": i, "dir": sb.path("l%d" % i), "kind": kind, "validation": val, "table": t.get("by_length", []),
+                         "maxlen": 15, "want": 0, "max_tries": 0, "threads": 1})
+        obs = vlib.run_harness("c15-hashsearch", cases, per_case_timeout=400)
+        obs_l = vlib.run_harness("c15-hashsearch", lens, per_case_timeout=60)
+    for (kind, val), o, ol in zip(HASH_SHAPES, obs, obs_l):
+        key = "%s/%s" % (kind, val)
+        if "verified" not in o:
+            raise vlib.BuildError("hash-extreme search failed for %s: %r" % (key, o))
+        got = o["verified"] + o["found"]
+        by_len = dict((len(e["combined"]), e) for e in ol.get("verified", []))
+        for n, name in o.get("by_length", {}).items():       # only filled when a search ran
+            by_len.setdefault(int(n), {"name": name, "combined": None})
+        info[key] = {"from_table": len(o["verified"]), "stale_table_entries": len(o["stale"]), "searched_states": o["tries"],
+                     "found_by_search": len(o["found"]), "unconfirmed": len(o.get("unconfirmed", [])),
+                     "combined_lengths": sorted(len(e["combined"]) for e in got), "other_lengths": sorted(by_len)}
+        for e in got:
+            res.append((kind, val, e["name"], e))
+        for n, e in sorted(by_len.items()):
+            if n > HASH_MAXLEN:
+                res.append((kind, val, e["name"], e))
+    if rep is not None:
+        rep.extra["hash_extremes"] = info
+    return res
+
+
+def refresh_hash_table(want=4, max_tries=40_000_000):
+    """maintenance (not part of the check): search again on the current tree and rewrite corpus/C15/hash/extremes.json"""
+    import json
+    path = os.path.join(vlib.VERIF, "corpus", "C15", "hash", "extremes.json")
+    doc = json.load(open(path)) if os.path.exists(path) else {"tables": {}}
+    tables = {}
+    for kind, val, name, e in hash_extremes(None, want=want, max_tries=max_tries):
+        t = tables.setdefault("%s/%s" % (kind, val), {"short": [], "by_length": []})
+        digits = [len(v) for k, v in e.items() if k != "name" and v]
+        t["short" if digits and min(digits) <= HASH_MAXLEN else "by_length"].append(name)
+    doc["tables"] = tables
+    json.dump(doc, open(path, "w"), indent=1)
+
+
+def hash_extreme_cases(rep):
+    """every extreme state through the cache-READING entry points: CLI twice without --force (by flags, by
+    tauri.conf.json, verbose), the build script twice; exit status / no panic as usual, and the hash in the cache
+    file the CLI wrote must be the one the driver computed"""
+    cases = []
+    for n, (kind, val, name, e) in enumerate(hash_extremes(rep)):
+        files = {"lib.rs": G.hash_source(kind, name)}
+        exp = e.get("combined")
+        tag = "hash-extreme-%s" % kind
+        cases.append((tag, files, val, False, {"via": "flags", "no_force": True, "verbose": n % 2 == 1, "entries": ["cli"], "expect_hash": exp}))
+        cases.append((tag, files, val, False, {"via": "conf", "no_force": True, "verbose": n % 2 == 0, "entries": ["cli", "build"], "expect_hash": exp}))
+        if n % 3 == 0:
+            cases.append((tag, files, val, True, {"via": "flags", "entries": ["cli", "lib"], "expect_hash": exp}))
+    return cases
+
+
 def isolation_cases(rep, rng):
     quick = rep.tier == "quick"
     cases = []
@@ -776,7 +879,8 @@ def run(rep):
     dist["walker"] = add_chunked(rep, "walker", eval_walker, walker_cases())
     dist["tskey"] = add_chunked(rep, "tskey", eval_tskey, list(dict.fromkeys(G.key_strings(rep.tier, rng))))
     ics = isolation_cases(rep, rng)
-    pcs = project_cases(rep, rng)
+    pcs = hash_extreme_cases(rep) + project_cases(rep, rng)
+    rep.extra.setdefault("project_distribution_extra", {})["hash-extreme"] = sum(1 for c in pcs if c[0].startswith("hash-extreme"))
     # the bases of the isolation cases are judged as ordinary project cases
     seen = set()
     for _, base, _, mode in ics:
